@@ -9,7 +9,7 @@ import ast
 
 from ..lattice import bv_family, ir_family
 from ..model import call_name, dotted, own_nodes, unparse
-from ..pathcond import conds_truth, path_info
+from ..pathcond import assigned_alternatives, conds_truth, path_info
 from ..profiles import controlling_test, reject_profile
 from ._pynames import norm
 from ._serial import ENC, PYTYPES, VAL
@@ -162,11 +162,10 @@ def run(pm, ctx):
     gsc = pm.func(PYTYPES + '.PythonTypesBackend._generate_struct_class')
     pi = path_info(gsc.node)
     m = {}
-    for n in own_nodes(gsc.node):
-        if isinstance(n, ast.Assign) and unparse(n.targets[0]) == 'validator' and \
-                isinstance(n.value, ast.Constant):
-            pol = [p for e, p in pi.at(n) if unparse(e) == 'data_type.has_enumerated_subtypes()']
-            m[n.value.value] = pol
+    for leaf, _st in assigned_alternatives(gsc.node, 'validator'):
+        if isinstance(leaf, ast.Constant):
+            pol = [p for e, p in pi.at(leaf) if unparse(e) == 'data_type.has_enumerated_subtypes()']
+            m[leaf.value] = pol
     ctx.check('C10-R4', m == {'StructTree': [True], 'Struct': [False]},
               'generator uses bv.StructTree exactly for structs with enumerated subtypes', gsc.loc,
               msg='validator kind selection changed: %r' % m,
